@@ -203,7 +203,8 @@ func verifC12(in []byte, cut int) {
 	// the backend answers everything it has been asked so far, in order; the bystander's is last
 	_, reqs := core.VerifRedisParse(w.Sent(target))
 	for i := 0; i < len(reqs)-1; i++ {
-		w.Feed(target, []byte("+X\r\n"))
+		// (a reply of the shape a Redis node gives to that command: an array to MGET, an integer to DEL ...)
+		w.Feed(target, replyFor(lowerArgs(reqs[i])))
 	}
 	w.Feed(target, []byte("$2\r\nhi\r\n"))
 	verifrt.Assert(bytes.Equal(w.Sent(ok), []byte("$2\r\nhi\r\n")), "bystander_served")
@@ -225,6 +226,13 @@ func verifC12(in []byte, cut int) {
 	}
 	verifrt.Assert(bytes.Equal(w.Sent(ok), []byte("$2\r\nhi\r\n$2\r\nho\r\n$2\r\nho\r\n$2\r\nh1\r\n$2\r\nh2\r\n$2\r\nh3\r\n$2\r\nh4\r\n")) && ok.Opened(), "bystander_pipeline_served_connection_open")
 	verifrt.Cover("end", true)
+}
+
+// lowerArgs: the request with its command name in lower case (what replyFor switches on).
+func lowerArgs(g [][]byte) [][]byte {
+	out := append([][]byte{}, g...)
+	out[0] = bytes.ToLower(append([]byte{}, g[0]...))
+	return out
 }
 
 func anyBytes(w *core.VerifWorld) bool {
